@@ -1339,7 +1339,13 @@ def headerLookup (n : Net) (cv : Page) : Option Page × Net × List Aux :=
 def headerFromCache (cv q : Page) (row0 : List Nat) : Page × Bool :=
   let copyHdr := q.function == FN_UNKNOWN || q.function == FN_LOP
   ({ cv with function := q.function, raw := if copyHdr then q.raw.set 0 row0 else q.raw,
-             link := q.link, haveFlof := q.haveFlof, enh := q.enh, ext := q.ext,
+             link := q.link, haveFlof := q.haveFlof,
+             -- fixes/C03-enh-zero-filler.diff (`ttxFixEnhFiller`, regenerated from packet.c): a copy stored without
+             -- X/26 / X/28 data comes back without its enhancement array (`Page.truncate`: zeros); the repaired code
+             -- marks the array unused as for a page built from scratch
+             enh := if ttxFixEnhFiller && copyHdr && q.x26 == 0 && q.x28 &&& 0x13 == 0
+                    then List.replicate ENH_SIZE Triplet.ff else q.enh,
+             ext := q.ext,
              drcsMode := if q.function == FN_DRCS || q.function == FN_GDRCS then q.drcsMode else cv.drcsMode,
              lopPackets := q.lopPackets, x26 := q.x26, x27 := q.x27, x28 := q.x28 }, copyHdr)
 
